@@ -364,6 +364,10 @@ class History:
                 fw = finished_with.get(t)
                 errs = [x for x in (fw[1][1] if fw and fw[0] == "exc" and fw[1] else []) if not is_cancel_code(x)]
                 to_starter = False
+                if self.real and t in pre_started_end and g_ is not None:
+                    # on a real loop the history does not show whether the starter was still waiting when the child
+                    # ended (no ready-queue view): whether the error went to start() or to the group is unknown
+                    tainted_groups.add(g_)
                 if t in pre_started_end:
                     st = via_start[t]
                     still_waiting = st in pending and pending[st][0][0] == S.START and start_child.get(st) == t \
